@@ -7,12 +7,23 @@ ASSUMPTIONS = [
     "the call does not raise",
     "hierarchical references are atoms over the table of all paths; flyweight identity ('same object') and hash equality are "
     "abstracted to path equality and are NOT claimed; is_valid/is_unique/name after edits are not claimed either",
-    "outside: get_hinstances/get_hports/get_hpins/get_hcables name filters and the recursive flag, deeper hierarchies",
+    "name maps: _update_hwire_namemap / _update_hcable_namemap(top, recursive, found, namemap) on the fixtures 'wire-only' (a cell "
+    "with nets but no children, one level down), 'shared-sub' and 'feed-through', recursive on and off (cube split; the walk is then "
+    "concrete), with symbolic naming (each cable: name present or not, array flag, base index 0..3): exactly one entry per cable / "
+    "wire occurrence below the start, none twice, named by instance path + cable name + bus index (one-bit arrays included); the "
+    "dictionary argument is a recording stand-in interpreted like the code under test",
+    "outside: get_hinstances/get_hports/get_hpins name filters, deeper hierarchies",
 ]
+
+
+def namemap_jobs(prop):
+    return [dict(name="%s/namemap/%s/%s/recursive=%s" % (prop, which, fx, rec), engine="E1/symheap", module="vf.e1.hier_jobs",
+                 func="namemap_job", timeout=900, args=dict(fixture=fx, which=which, tier="quick", recursive=rec, prop=prop))
+            for fx in ("wire-only", "shared-sub", "feed-through") for which in ("hwire", "hcable") for rec in (True, False)]
 
 
 def jobs(tier):
     fxs = ("shared-sub",) if tier == "quick" else ("shared-sub", "feed-through")
-    return [dict(name="C11/occurrences/%s" % fx, engine="E1/symheap", module="vf.e1.hier_jobs",
+    return namemap_jobs("C11") + [dict(name="C11/occurrences/%s" % fx, engine="E1/symheap", module="vf.e1.hier_jobs",
                  func="occurrences_job", timeout=3000,
                  args=dict(fixture=fx, tier=tier, timeout_ms=400000 if tier == "quick" else 1500000)) for fx in fxs]
